@@ -209,6 +209,47 @@ def _txn(ctx, cfg, prog, mod):
                    txn.short(inv), txn.short(undone), '' if ok else 'NOT', reason), site='%s:%d' % (b.file, b.line))
     _snaparg(ctx, cfg, prog, mod, res, eng)
     _snapcond(ctx, cfg, prog, mod)
+    _side(ctx, cfg, prog, mod)
+
+
+def _side(ctx, cfg, prog, mod):
+    """SIDE: the same rollback dataflow on the non-storage state named by the property (policies,
+    counters, the duplicate index)."""
+    import side
+    ctx.rule('SIDE', 'no exported &mut operation returns Err / Skipped with insertion_state (policies, insertion counter), '
+                     'spatial_index, validation_policy, topology_guarantee or global_topology changed and not restored '
+                     '(copy/clone snapshots; whole-receiver replacements must come from a builder that copies the field)')
+    keep, sites = side.keep_table(prog, mod)
+    n_mut = 0
+    for field in sorted(side.FIELDS):
+        res, eng = side.engine_for(prog, mod, field, INFEASIBLE, keep)
+        E = c11.entry_set(prog, res)
+        oset = {q for q, _ in E}
+        eng.assume_clean = set(oset)
+        eng.solve()
+        for (q, i) in E:
+            summ = eng.summary[(q, i)]
+            b = prog.bodies[q]
+            mutating = any(m for (_, m) in summ)
+            n_mut += 1 if mutating else 0
+            ok = ('fail', 1) not in summ
+            detail = 'outcomes (exit class, %s changed): %s' % (field, sorted(summ))
+            if not ok:
+                r = eng.own_root(q, i, oset)
+                if r is not None:
+                    detail += '; failing exit `%s` reached with %s changed by %s and not restored' % (
+                        r['exit'], field, r['source'])
+            ctx.ob('SIDE', '%s|%s' % (field, q), cfg, ok, detail, nontrivial=mutating and any(c == 'fail' for c, _ in summ),
+                   site='%s:%d' % (b.file, b.line))
+        for owner, (ok, d) in sorted(keep.get(field, {}).items()):
+            ctx.ob('SIDE', '%s|replace|%s' % (field, owner), cfg, ok or field == 'spatial_index',
+                   'whole-receiver replacement in %s: %s' % (owner.rsplit('::', 1)[-1], d), nontrivial=ok)
+    ctx.floor('SIDE (field, operation) pairs that can change the field', 10, n_mut, cfg)
+    ctx.floor('whole-receiver replacement sites', 2, len(sites), cfg)
+    for q, why in sorted(side.BENIGN.items()):
+        ctx.anchor(cfg, q)
+        ctx.ob('SIDE', 'benign|' + q, cfg, False, 'writes of %s to the tracked fields are not counted' % q.rsplit('::', 1)[-1],
+               assumed=why, nontrivial=False)
 
 
 def _snaparg(ctx, cfg, prog, mod, res, eng):
